@@ -141,6 +141,21 @@ NEEDS = {
  "C17i": "HELD-OUT 4: two or more single-input gates in series on a branch outside any reconvergent region",
  "C18i": "HELD-OUT 4: acyclic_unroll(A) then acyclic_unroll(B) in one interpreter where B has the wiring of A but another gate type somewhere (memo keyed by wiring only)",
  "C19i": "HELD-OUT 4: circuit_to_verilog / to_file of a blackbox-free circuit with an escaped node name (\\a[0])",
+ "C01j": "HELD-OUT 5: two or more xnor gates with fan-in >= 3 (they share one inverse-helper variable through a stale closure variable); one wide xnor plus a 2-input xnor that nodes() yields last under some PYTHONHASHSEED values",
+ "C03j": "HELD-OUT 5: a circuit with at least one output and no internal net at all (every output is an input; blackbox pins sit directly on inputs): the writer emits `wire ;`",
+ "C04j": "HELD-OUT 5: a miter with no endpoint to compare (no shared output, endpoints=set(), self-miter of a circuit without outputs) but startpoints to tie: the early return skips the tying",
+ "C05j": "HELD-OUT 5: limit_fanout of a node with a buf load that has room and an xor/xnor load fed by both the node and that buf, popped in that order; PYTHONHASHSEED dependent (19 of 48 seeds on the demo)",
+ "C06j": "HELD-OUT 5: fill_blackbox with an implementation that contains a blackbox of another type: the nested instance is registered with the filled blackbox's type object",
+ "C07j": "HELD-OUT 5: a rejected add_blackbox whose pin name is already the pin node of another recorded instance (dotted names: instance u with pin rd.en, new instance u.rd with pin en): the roll-back removes that node",
+ "C08j": "HELD-OUT 5: signal_probability(approx=False) of a node whose cone contains constants only (no startpoint), value 1, in a circuit that has startpoints elsewhere",
+ "C09j": "HELD-OUT 5: sequential_unroll(remove_unloaded=True) with a primary input whose only loads are flop D pins",
+ "C10j": "HELD-OUT 5: an and/nand/or/nor gate that reads a net together with an inverter of that net (companion forced to 0 although Kleene evaluation gives X)",
+ "C11j": "HELD-OUT 5: influence / avg_sensitivity of the circuit's only endpoint when some startpoint lies outside its cone (unused input, dead logic)",
+ "C15j": "HELD-OUT 5: circuit_to_bench of a circuit whose non-output nodes carry no `output` attribute (fast Verilog reader, Circuit(graph=g)): KeyError",
+ "C16j": "HELD-OUT 5: inputs=False and a dead gate with a primary input among its fan-ins that set order yields before another dead driver (break instead of continue); PYTHONHASHSEED dependent",
+ "C17j": "HELD-OUT 5: a single-output circuit with unloaded logic that reads a net inside the output cone",
+ "C18j": "HELD-OUT 5: two or more feedback edges chosen from the same source node (overlapping loops): the second edge is cut but never re-driven",
+ "C19j": "HELD-OUT 5: utils.lint(c, unloaded=True) on a circuit with a dead non-output gate (the checker calls the mutating remove_unloaded on its argument, then raises)",
  "C18d": "(helper: Circuit.disconnect testing `u in us` with a single name, i.e. a substring test) a cut feedback node whose name contains the name of another driver of one of its loads (n12 / n1)",
  "C19c": "influence/avg_sensitivity with supergates=True and a peer failure in the middle (solver raises, pysat unimportable, approxmc missing or exit 1)",
  "C19": "tx.subcircuit asked for ALL nodes of a blackbox-free circuit (directly or through sensitization_transform / influence with an endpoint whose cone is the whole circuit), then any edit or the internal set_output",
@@ -180,7 +195,9 @@ def main():
         if not os.path.isfile(os.path.join(d, "patch.diff")) or (only and sid not in only):
             continue
         prop = sid[:3]
-        if sid.endswith("i"):
+        if sid.endswith("j"):
+            src2 = " (round 10, fifth held-out measurement, after the history / representation seams and the audit-driven workload extensions)"
+        elif sid.endswith("i"):
             src2 = " (round 9, fourth held-out measurement; agents were also asked for side observations on the original code)"
         elif sid.endswith("h"):
             src2 = " (round 8, third held-out measurement: property text plus the list of all earlier changes not to repeat)"
